@@ -549,7 +549,10 @@ XMLSize_t XMLString::replaceTokens(          XMLCh* const    errText
         }
          else
         {
-            // Escape the curly brace character and continue
+            // Escape the curly brace character and continue, if there
+            // is still room for it
+            if (curOutInd >= maxChars)
+                break;
             errText[curOutInd++] = *pszSrc++;
         }
     }
